@@ -26,6 +26,10 @@ def random_tree_params(r, configs, max_n=64, big=False):
     kind = r.choice(gen.KINDS)
     n = r.choice([1, 2, 3, 5, 8, 13, 21, 34, 55, max_n])
     n = min(n, max_n)
+    if r.random() < 0.05:
+        # a deep, sparse tree: leaf indices beyond 31 bits
+        H = gen.pick_height_deep(r, D)
+        n = min(n, 8)
     parts = gen.gen_particles(r, D, H, kind, n)
     nleaves = len(set(parts))
     bs = gen.pick_bs(r, nleaves)
